@@ -225,6 +225,17 @@ func (c *Client) ConsensusState(ctx context.Context) (*ctypes.ResultConsensusSta
 }
 
 func (c *Client) ConsensusParams(ctx context.Context, height *int64) (*ctypes.ResultConsensusParams, error) {
+	if height == nil {
+		// Without a height a node answers for the height it is about to decide
+		// (rpc/core: latestUncommittedHeight), for which there is no header to
+		// verify the answer against. Ask for the latest height that has one.
+		l, err := c.updateLightClientIfNeededTo(ctx, nil)
+		if err != nil {
+			return nil, err
+		}
+		height = &l.Height
+	}
+
 	res, err := c.next.ConsensusParams(ctx, height)
 	if err != nil {
 		return nil, err
